@@ -681,8 +681,9 @@ def _rand_rx(npr, grid, kind='interior'):
         n = nds[d]
         xyz[d] = float(npr.choice([npr.uniform(n[0], n[1]) - 1e-9, npr.uniform(n[-2], n[-1]) + 1e-9,
                                    n[0] - 1.0, n[-1] + 1.0]))
-    az, el = npr.choice([0., 90., -90., 180., float(npr.uniform(-180, 180))]), \
-        npr.choice([0., 90., -90., float(npr.uniform(-90, 90))])
+    # includes factors that are small but far above the 1e-10 guard (1.7e-4, 1.7e-8)
+    az, el = npr.choice([0., 90., -90., 180., 90.01, float(npr.uniform(-180, 180))]), \
+        npr.choice([0., 90., -90., 0.01, 1e-6, float(npr.uniform(-90, 90))])
     return xyz, float(az), float(el)
 
 
